@@ -229,6 +229,21 @@ func init() {
 	)
 }
 
+// Unlabelled provides a name of its own, and that name is the empty string.
+type Unlabelled struct {
+	ID int
+	S  string
+}
+
+func (Unlabelled) EventTypeName() string { return "" }
+
+func init() {
+	shapes = append(shapes,
+		mkShape("namer-empty-name", true, func(id int, s string) Unlabelled { return Unlabelled{id, s} }, func(e Unlabelled) int { return e.ID }),
+		mkShape("namer-empty-name-pointer", true, func(id int, s string) *Unlabelled { return &Unlabelled{id, s} }, func(e *Unlabelled) int { return e.ID }),
+	)
+}
+
 // Envelope names itself by value: one Go type, several event type names.
 type Envelope struct {
 	ID   int    `json:"id"`
@@ -361,6 +376,11 @@ func Run(c *Case) *vkit.Outcome {
 		}
 	case "upcast-source":
 		if err := sh.upFrom(bus2); err != nil {
+			if wantName == "" {
+				// an empty name cannot take part in upcasting (C16): nothing to match
+				o.Class("upcast_registration_for_the_empty_name_rejected")
+				return o
+			}
 			o.Failf("", "%s: RegisterUpcast: %v", desc, err)
 			return o
 		}
@@ -382,6 +402,10 @@ func Run(c *Case) *vkit.Outcome {
 		}
 	case "upcast-target":
 		if err := sh.upTo(bus2); err != nil {
+			if wantName == "" {
+				o.Class("upcast_registration_for_the_empty_name_rejected")
+				return o
+			}
 			o.Failf("", "%s: RegisterUpcast: %v", desc, err)
 			return o
 		}
